@@ -18,6 +18,7 @@
 
 #include <cstdio>
 #include <fstream>
+#include <locale>
 #include <iostream>
 #include <typeinfo>
 
@@ -130,6 +131,31 @@ static void on_signal(int sig)
     raise(sig);
 }
 
+// The process-wide C++ locale is part of the environment a library runs in: applications commonly call
+// std::locale::global(std::locale("")), and under en_US / de_DE numbers formatted through a stream are grouped
+// ("1,005" / "1.005") and use a different decimal mark.  No such locale is installed in this image, so the facets are
+// made by hand; the C locale (printf, strtod, SQLite, this harness' own JSON output) is not affected.
+namespace
+{
+struct grouping_punct : std::numpunct<char>
+{
+    char sep, dec;
+    grouping_punct(char s, char d) : sep(s), dec(d) {}
+    char do_thousands_sep() const override { return sep; }
+    std::string do_grouping() const override { return "\3"; }
+    char do_decimal_point() const override { return dec; }
+};
+void install_locale(const std::string& name)
+{
+    if (name == "en_US-like")
+        std::locale::global(std::locale(std::locale::classic(), new grouping_punct(',', '.')));
+    else if (name == "de_DE-like")
+        std::locale::global(std::locale(std::locale::classic(), new grouping_punct('.', ',')));
+    else
+        std::locale::global(std::locale::classic());
+}
+}  // namespace
+
 int main(int argc, char** argv)
 {
     if (argc < 2)
@@ -169,6 +195,8 @@ int main(int argc, char** argv)
         // every case starts in UTC; an op may carry "tz" (a POSIX TZ string) to move the process into another zone
         setenv("TZ", "UTC0", 1);
         tzset();
+        // ... and in the classic C++ locale; an op may carry "locale" to install a global locale with digit grouping
+        std::locale::global(std::locale::classic());
         shim_disarm();
         shim_set_step_budget(50000000);
         shim_set_inflate_budget(100000);
@@ -193,6 +221,8 @@ int main(int argc, char** argv)
                 setenv("TZ", op["tz"].get<std::string>().c_str(), 1);
                 tzset();
             }
+            if (op.contains("locale"))
+                install_locale(op["locale"].get<std::string>());
             shim_begin_op();
             if (op.contains("fault"))
             {
